@@ -361,9 +361,9 @@ func runC11History(ctx context.Context, boot *pgsim.DB, L c11Ledgers, path []lx.
 	if imported["dsta"] != nil {
 		env := phttp.NewEnv(pg)
 		ex, _ := env.Do(phttp.Req{Method: "POST", Path: "/v2/" + L.Src + "/logs/export"})
-		holes := false
-		for i, l := range logs {
-			if l.ID != nil && *l.ID != uint64(i+1) {
+		holes := false // a hole BETWEEN two exported logs
+		for i := 1; i < len(logs); i++ {
+			if logs[i].ID != nil && logs[i-1].ID != nil && *logs[i].ID != *logs[i-1].ID+1 {
 				holes = true
 			}
 		}
@@ -550,6 +550,26 @@ func runC11(r *ev.Run) (ev.Coverage, []string) {
 	alpha := c11Alphabet()
 	depth := ev.Pick(r, 2, 3)
 	seqs := sequences(len(alpha), depth)
+	// fixed histories beyond the depth bound, run in both tiers: a log id burnt by a rolled-back
+	// write BETWEEN two logs (a hole in the middle of the exported stream; at depth 2 a hole can
+	// only precede or follow the single other log)
+	idx := func(name string) int {
+		for i, op := range alpha {
+			if op.Name == name {
+				return i
+			}
+		}
+		panic("c11: no op " + name)
+	}
+	for _, h := range [][]string{{"fund-a", "dry", "a>c30"}, {"fund-a", "dry", "dry", "revert1-force-eff"}} {
+		var sq []int
+		for _, n := range h {
+			sq = append(sq, idx(n))
+		}
+		if len(sq) > depth {
+			seqs = append(seqs, sq)
+		}
+	}
 	st := &c11Stats{states: map[string]bool{}, logTypes: map[string]int64{}, writeOK: map[string]int64{}, soft: map[string]int64{}}
 	restore := quietStdout()
 	results := make([][]c11Viol, len(seqs))
@@ -584,7 +604,7 @@ func runC11(r *ev.Run) (ev.Coverage, []string) {
 		}
 	}
 	depthDone := 0
-	for d := 1; d <= depth && perDepthRan[d] == perDepthAll[d]; d++ {
+	for d := 1; d <= depth && perDepthRan[d] == perDepthAll[d]; d++ { // (fixed longer histories are extra)
 		depthDone = d
 	}
 	if !r.HasEngineError() && done {
